@@ -148,10 +148,16 @@ pub fn run(seed: u64, thorough: bool) -> Vec<Value> {
     {
         let big = i64::MAX;
         let info2 = g.honest_ready(0, big as u64, &[]);
-        let (_b2, ptree2, nonce_b2) = g.honest_pay_proof_pub(&info2, -big);
+        let started = g.honest_pay_proof_opt(&info2, -big);
+        if started.is_none() {
+            // the library refused an in-range refund: reported as a refused application (Ledger.tla says it succeeds)
+            out.push(json!({"ev": "apply", "cb": limbs(0), "mb": limbs(big as u128), "amt": amt(-big), "out": "InsufficientFunds", "unchanged": true}));
+        }
+        let amounts: Vec<i64> = if started.is_some() { vec![-big, i64::MIN, -big + 1, big] } else { vec![] };
+        let (_b2, ptree2, nonce_b2) = started.unwrap_or_else(|| g.honest_pay_proof_pub(&info, 7));
         let nonce2: zkabacus_crypto::Nonce = bincode::deserialize(&nonce_b2).unwrap();
         let m = g.world.mers[0];
-        for a in [-big, i64::MIN, -big + 1, big] {
+        for a in amounts {
             let p: zkabacus_crypto::PayProof = bincode::deserialize(&ptree2.bytes).unwrap();
             let amount: PaymentAmount = bincode::deserialize(&a.to_le_bytes()).unwrap();
             let mut r2 = seeded(seed, 94);
